@@ -253,6 +253,21 @@ func (e *Environment) SetLocal(name string, val object.Object) object.Object {
 	return val
 }
 
+// ScopeDepth returns the number of scopes which are currently open.
+func (e *Environment) ScopeDepth() int {
+	return len(e.local)
+}
+
+// UnwindScopes closes scopes until only the given number remain open.
+//
+// It is used to get back to a known state when a function or a loop was
+// left in an unusual way.
+func (e *Environment) UnwindScopes(depth int) {
+	if depth >= 0 && depth < len(e.local) {
+		e.local = e.local[:depth]
+	}
+}
+
 // DeclareLocal binds a variable in the innermost scope, whether or not
 // an enclosing scope already holds a variable of the same name.
 //
